@@ -185,7 +185,7 @@ SPECS = {
         "engines": [
             {"name": "hist", "tag": "c05", "extra": "prop=C05", "n": {"quick": 500, "thorough": 6000}},
         ],
-        "explanation": "Theorems: in every reachable state (lost responses and retries included) an honest client's sync is accepted and acknowledges all pending changes; (actor, clientSeq) rows are never duplicated; delivery stays exactly-once. Tied by replaying recorded traffic (including retried identical requests) through the model; oracles on the implementation: no duplicate (actor, clientSeq) row, convergence, retried request accepted.",
+        "explanation": "Theorems: in every reachable state (lost responses and retries included) an honest client's sync is accepted and acknowledges all pending changes; (actor, clientSeq) rows are never duplicated; delivery stays exactly-once. a sync answered with a snapshot (first attempt or retry) builds the snapshot from the stored log exactly, every change once (C05_snapshot_applies_each_change_once; finding P45, repaired by 56275d99, is the witness C05_resend_into_snapshot_refuted). Tied by replaying recorded traffic (retried identical requests, and retries by a fresh pack that also carries the edits made since) through the model; half of the histories run on projects with tiny snapshot interval/threshold so that retries are answered with snapshots; oracles on the implementation: no duplicate (actor, clientSeq) row, convergence, retried request accepted.",
         "assumptions": [
             "storage faults inside a request: the hist engine makes the n-th storage call of a sync fail, before or after it took effect (decorated database), and the client retries the identical pack; faults in the window between CreateChangeInfos and UpdateClientInfoAfterPushPull duplicate the pushed changes (finding P8, known; model witness C05_crash_in_push_window_refuted); histories with a fired fault are not replayed through the protocol model (it handles whole requests)",
             "memory database only: the fault is an error returned by the storage interface, not a torn write inside one storage call",
